@@ -7,10 +7,12 @@ a) REMEMBER: the catalog entry is created and the query executed only on the `al
 b) SHOW: awaited wait_for_inflight_flushes (Ok) dominates the delta execute_streaming; the high-water mark placed in the delta query's metadata and in the persisted outcome is the one read
    before the delta started (DeltaRefresher::initial_high_water); persist_outcome only after the response was written successfully.
 c) delta refresher task: {watermark.enabled() == false edge, Some edge of WatermarkDeduplicator::filter} cuts each received batch from both sink.append and sender.send; the batch sent is the batch appended.
+e) the watermark that de-duplicates the delta against the stored frames is read from the store itself (MaterializedSink::high_water_mark on the sink opened for this SHOW), both for the
+   WatermarkDeduplicator and for DeltaRefresher::initial_high_water — not from the catalog entry, which lags behind when a previous SHOW appended frames but did not persist its outcome.
 d) materialisation pruning strictness: a zone / segment is skipped only under `timestamp_max < high_water` (strict) or `created_at <= created_at`.
 """
-FLOOR = 5
-REQUIRED = ["C14.a", "C14.b", "C14.c", "C14.d1", "C14.d2"]
+FLOOR = 6
+REQUIRED = ["C14.a", "C14.b", "C14.c", "C14.d1", "C14.d2", "C14.e"]
 
 
 def run(ctx):
@@ -133,3 +135,24 @@ def run(ctx):
         return f
     ctx.run("C14.d1", "K8 GUARD", "MaterializationPruner::apply", "zone skipping is strict on the high-water second", strict("MaterializationPruner::apply", "pruner"))
     ctx.run("C14.d2", "K8 GUARD", "MaterializationGuard::segment_fully_materialized", "segment skipping is strict on the high-water second", strict("MaterializationGuard::segment_fully_materialized", "guard"))
+
+
+    def e(inst):
+        b = F.fn("DeltaRefresher::new")
+        hw = one(b, r"MaterializedSink::high_water_mark$")
+        wd = one(b, r"WatermarkDeduplicator::new$")
+        inst.sites = [sp(b, hw.bb), sp(b, wd.bb)]
+        bad = []
+        L = b.origins(wd.args[0])
+        if not all(l[0] == "call" and norm_path(l[1]).endswith("MaterializedSink::high_water_mark") for l in L):
+            bad.append(("dedup-watermark-origin", "the delta de-duplication watermark is %s, not the store's own high-water mark" % fmt_leaves(L), None))
+        ag = b.aggregates("DeltaRefresher")
+        if not ag:
+            raise AnchorMissing("DeltaRefresher aggregate")
+        for (bb, j, v, dst) in ag:
+            Li = b.origins(v["o"][v["fields"].index("initial_high_water")])
+            if not all(l[0] == "call" and norm_path(l[1]).endswith("MaterializedSink::high_water_mark") for l in Li):
+                bad.append(("initial-watermark-origin", "initial_high_water is %s, not the store's own high-water mark" % fmt_leaves(Li), None))
+        # the sink whose watermark is read is the one opened on entry.storage_path
+        return bad
+    ctx.run("C14.e", "K7 PROV", "DeltaRefresher::new", "the de-duplication watermark reflects what the store really holds", e)
